@@ -137,7 +137,9 @@ class C05Check:
             "interleavings, solver latencies 1ms-7s, optional line-level pre-emption in __main__/solve/processes). Oracle: verdict "
             "table evaluated on the recorded per-path outcomes (classified by the harness from the yielded states) and the replies "
             "actually delivered; PASS must additionally have >=1 success path, only unsat replies, no stuck path; twin verdicts "
-            "equal; printed verdict == TestResult.exitcode class; run_test returns (no deadlock). distinct = distinct (vector, "
+            "equal; printed verdict == TestResult.exitcode class; run_test returns (no deadlock). One run in three additionally drives "
+            "halmos' _main (argument parsing, artifacts written to <root>/out, a no-op `forge`, optional second contract whose setUp "
+            "reverts or passes) under the same fault vector: the returned exit code must be 0 iff every selected test has exit code 0. distinct = distinct (vector, "
             "event-log digest); non-trivial = >=1 solver query answered and >=2 tasks interleaved")
     assumptions = [
         "the ThreadPoolExecutor, process table, psutil and clock are behavioural models (hsim/shims.py); threads are real, their interleaving is decided by the seeded scheduler",
@@ -294,9 +296,17 @@ class C05Check:
             if v0 != v1 and same_faults and not (vec["early_exit"] and "FAIL" in (v0, v1)):
                 violations.append(dict(oracle="C05:schedule-dependent-verdict", disc=f"{v0}-vs-{v1}",
                                        detail=f"same test and same solver replies, two schedules: verdict {v0} vs {v1}; vector {vec}"))
+        # ---------------- process exit code: halmos' _main on a project directory holding the same artifacts
+        main_phase = None
+        if not violations and (zlib.crc32(repr(vec).encode()) + ch.pick(3, "sw.mainphase")) % 3 == 0:
+            main_phase = self.run_main(ch, vec, cj, solver, timeout_s, panic_codes)
+            violations.extend(main_phase["violations"])
         out0 = runs[0][0]
         faults = {}
         probes = {}
+        if main_phase is not None:
+            probes["main_phase_runs"] = 1
+            probes["main_phase_" + main_phase["extra"]] = 1
         for out, observed in runs:
             for k, n in out.sim.fault_counts.items():
                 faults[k] = faults.get(k, 0) + n
@@ -325,6 +335,99 @@ class C05Check:
         if keep_log:
             res["log"] = [("stdout", out0.stdout[-1500:]), ("warnings", out0.warnings[-10:])] + list(out0.sim.log[-60:])
         return res
+
+    def run_main(self, ch, vec, cj, solver, timeout_s, panic_codes):
+        """drive halmos' real entry point (argument parsing, artifact loading, per-contract loop, exit code)"""
+        import json
+        import shutil
+        import tempfile
+
+        import halmos.__main__ as hm
+
+        leaves = vec["leaves"]
+        os.environ["PATH"] = os.path.join(os.path.dirname(os.path.dirname(os.path.abspath(__file__))), "tools", "bin") + ":" + os.environ["PATH"]
+        root = tempfile.mkdtemp(prefix="c05proj-", dir="/dev/shm" if os.path.isdir("/dev/shm") else None)
+        extra = ch.choose(["none", "setup_fails", "passing_contract"], "mp.extra")
+        try:
+            os.makedirs(root + "/out/T.sol")
+            with open(root + "/out/T.sol/T.json", "w") as f:
+                json.dump({k: v for k, v in cj.items() if k != "abi_dict"}, f)
+            if extra != "none":
+                def setup(a):
+                    if extra == "setup_fails":
+                        a.push(0).push(0).op("REVERT")
+                    else:
+                        a.op("STOP")
+                rt2 = A.build_runtime({"setUp()": setup, "check_ok()": lambda a: a.op("STOP")})
+                cj2 = A.contract_json("U", "test/U.sol", rt2, [A.abi_item("setUp()"), A.abi_item("check_ok()")], ast_id=5)
+                os.makedirs(root + "/out/U.sol")
+                with open(root + "/out/U.sol/U.json", "w") as f:
+                    json.dump(cj2, f)
+            with open(root + "/foundry.toml", "w") as f:
+                f.write("[profile.default]\n")
+            observed = []
+
+            def plan(info):
+                pid = info["path_id"]
+                leaf_idx = next((o["leaf"] for o in observed if str(o["path_id"]) == pid and o["fn"] == "check_f"), None)
+                if leaf_idx is None or leaf_idx >= len(leaves) or info["refined"]:
+                    return "truth"
+                info["param"] = zlib.crc32(repr((vec, leaf_idx)).encode())
+                r = leaves[leaf_idx]["reply"]
+                if r == "slow_over":
+                    return "slow"
+                if r.startswith("core_"):
+                    return "truth"
+                return r
+
+            argv = ["--root", root, "--solver-command", "simsolver", "--no-status", "--solver-threads", str(vec["threads"]),
+                    "--solver-timeout-assertion", str(timeout_s * 1000), "--solver-timeout-branching", "0",
+                    "--panic-error-codes", ",".join(hex(c) for c in sorted(panic_codes))]
+            if vec["early_exit"]:
+                argv.append("--early-exit")
+            if vec["cache"]:
+                argv.append("--cache-solver")
+
+            def main():
+                orig_rm = hm.run_message
+
+                def tee(ctx, sevm, message, dyn_params):
+                    n = 0
+                    for ex in orig_rm(ctx, sevm, message, dyn_params):
+                        observed.append(dict(path_id=n, leaf=self._leaf_of(ex, len(leaves)), fn=ctx.info.name))
+                        n += 1
+                        yield ex
+
+                hm.run_message = tee
+                try:
+                    return hm._main(argv)
+                finally:
+                    hm.run_message = orig_rm
+
+            out = R.run_under_sim(ch, main, solver=solver, plan=plan, unknown_rate=1.0, max_steps=40000)
+        finally:
+            shutil.rmtree(root, ignore_errors=True)
+        vio = []
+        res = out.results
+        if out.outcome == "deadlock":
+            vio.append(dict(oracle="C05:hang", disc="main-deadlock", detail=f"_main never returned: {out.sim.deadlock_info}"))
+        elif out.outcome == "done":
+            if res is None or out.exception is not None:
+                if not isinstance(out.exception, SystemExit):
+                    vio.append(dict(oracle="C05:exitcode", disc="main-raised",
+                                    detail=f"_main raised {out.exception!r}; stdout tail {out.stdout[-300:]!r}"))
+            else:
+                per_test = {}
+                for cpath, results in (res.test_results or {}).items():
+                    for r in results:
+                        per_test[(cpath.rsplit(":", 1)[-1], r.name)] = r.exitcode
+                selected = [("T", SIG)] + ([("U", "check_ok()")] if extra != "none" else [])
+                all_pass = all(per_test.get(t) == 0 for t in selected)
+                if (res.exitcode == 0) != all_pass:
+                    vio.append(dict(oracle="C05:exitcode", disc=f"exit={res.exitcode}:all-pass={all_pass}:{extra}",
+                                    detail=f"process exit code {res.exitcode} but per-test exit codes {per_test} for the selected tests {selected} "
+                                           f"(extra contract: {extra}); vector {vec}"))
+        return dict(violations=vio, out=out, extra=extra)
 
     @staticmethod
     def _leaf_of(ex, nleaves):
